@@ -66,7 +66,7 @@ Notes == IF Kernel = "full" THEN {"", "", "finely chopped"} ELSE {""}
 Words == IF Kernel = "full" THEN {"Mix", "the", "and", "well", "crE2me", "a\\@b", "50%", "E4"} ELSE {"mix"}
 WordChunks(x) == CASE x = "crE2me" -> <<"cr", "E2", "me">> [] x = "a\\@b" -> <<"a", "BS", "@b">> [] OTHER -> <<x>>
 WordText(x)   == CASE x = "a\\@b" -> "a@b" [] OTHER -> x
-Inlines == {[n |-> "180", u |-> "C"], [n |-> "5", u |-> "min"], [n |-> "2", u |-> "bags"]}
+Inlines == {[n |-> "180", u |-> "C"], [n |-> "-18", u |-> "C"], [n |-> "5", u |-> "min"], [n |-> "2", u |-> "bags"]}
 MetaPool == {[k |-> "title", v |-> "Soup"], [k |-> "servings", v |-> "2"], [k |-> "servings", v |-> "2|4"],
              [k |-> "k", v |-> "v w"], [k |-> "source", v |-> "book"], [k |-> "servings", v |-> "3 cups"],
              [k |-> "servings", v |-> "6|2"], [k |-> "servings", v |-> "4 | 2 | 8"],
